@@ -4,6 +4,7 @@ import (
 	"context"
 	"fmt"
 	"sort"
+	"strconv"
 	"strings"
 	"testing"
 
@@ -571,6 +572,10 @@ func checkDisabled(c Case, es graphql.ExecutableSchema, schema *ast.Schema) *vfr
 		{"{ ...F } fragment F on Query { a: __schema { directives { name } } b: __type(name: \"Query\") { name } }", nil, []string{"a", "b"}},
 		{"{ ... on Query { ... { s: __schema { types { name description } } } } }", nil, []string{"s"}},
 		{introspectionQuery("z_"), nil, []string{"z___schema"}},
+		// names that are not types of the schema are answered like the others: whether a name exists
+		// is part of what stays hidden
+		{"{ k0: __type(name: \"NoSuchType\") { name } k1: __type(name: \"\") { name } k2: __type(name: \"String\") { name } k3: __type(name: \"__Schema\") { name } k4: __type(name: " + strconv.Quote(someType) + ") { name } }", nil, []string{"k0", "k1", "k2", "k3", "k4"}},
+		{"query($n: String!, $m: String!) { u: __type(name: $n) { name kind } ...G } fragment G on Query { w: __type(name: $m) { name } }", map[string]any{"n": "NoSuchType", "m": someType + "x"}, []string{"u", "w"}},
 	}
 	for _, q := range queries {
 		resp, _ := run(es, false, q.q, q.vars)
@@ -586,6 +591,26 @@ func checkDisabled(c Case, es graphql.ExecutableSchema, schema *ast.Schema) *vfr
 				if v := data.Get(k); v != nil && v.Kind != strictjson.Null {
 					return vfrun.Failf("introspect.disabled-leak", "introspection disabled, query %q: %s is %s", q.q, k, v.Canon())
 				}
+			}
+		}
+		// each hidden field is null *with an error* of its own
+		for _, k := range q.keys {
+			found := false
+			for _, ge := range resp.Errors {
+				if len(ge.Path) > 0 {
+					if n, ok := ge.Path[0].(ast.PathName); ok && string(n) == k {
+						found = true
+					}
+				}
+			}
+			if !found {
+				return vfrun.Failf("introspect.disabled-field-without-error", "introspection disabled, query %q variables %v: no error for %s; errors %v data %s", q.q, q.vars, k, resp.Errors, resp.Data)
+			}
+		}
+		if len(resp.Data) > 0 && string(resp.Data) != "null" {
+			data, _ := strictjson.Parse(resp.Data)
+			if data == nil {
+				continue
 			}
 			txt := string(resp.Data)
 			for n, d := range schema.Types {
